@@ -342,6 +342,8 @@ structure JState where
       the product of a save (`wf`, `rm`, nothing yet) -/
   snap : Option (List JVar × Bool) := none
   hasFile : Bool := false
+  /-- declared program graph of the case (`prog` lines): name ↦ (inherits (modifier, program), variables (modifier, name)) -/
+  progs : List (String × List (String × String) × List (String × String)) := []
   bad : List String := []
 
 def JState.flag (s : JState) (vs : List String) : JState := { s with bad := vs.reverse ++ s.bad }
@@ -371,26 +373,55 @@ def judgeRestored (s : JState) (what : String) (orig : V) (impl : List String) :
     | _ => (s.flag [s!"trace unexpected {l}"], r)
   | none => (s.flag [s!"trace missing-rest {what}"], [])
 
-def fileChecks (statics : List String) (hex : String) : List String :=
+def isSubseq : List String → List String → Bool
+  | [], _ => true
+  | _ :: _, [] => false
+  | a :: r, b :: t => if a == b then isSubseq r t else isSubseq (a :: r) t
+
+/-- the variable names in a save file, in order -/
+def fileNames (hex : String) : List String :=
   let bytes := hexBytes hex.toList
   let lines := (splitLines bytes).map (fun l => String.ofList (l.map Char.ofNat))
-  lines.foldl (fun acc l =>
-    if statics.any (fun n => l.startsWith (n ++ " ")) then acc ++ [s!"persisted-static-variable {l}"]
-    else if l.startsWith "vo " ∧ l != "vo " then acc ++ [s!"persisted-object-reference {l}"]
-    else acc) []
+  (lines.filter (fun l => l != "" ∧ !l.startsWith "#")).map (fun l => (l.splitOn " ").headD "")
+
+/-- what the file may contain: exactly (save_zeros) / a subsequence of (otherwise) the names of the non-static
+    variables in layout order — nothing static, nothing twice, nothing out of order; an object reference has no text -/
+def fileChecks (live : List JVar) (zeros : Bool) (hex : String) : List String :=
+  let want := (live.filter (fun v => !v.isStatic)).map (·.name)
+  let got := fileNames hex
+  let bytes := hexBytes hex.toList
+  let lines := (splitLines bytes).map (fun l => String.ofList (l.map Char.ofNat))
+  (if (zeros ∧ got == want) ∨ (!zeros ∧ isSubseq got want) then []
+   else [s!"persisted-wrong-variables file has {got} expected {want}"]) ++
+  (if live.any (fun v => v.name == "vo") ∧ lines.any (fun l => l.startsWith "vo " ∧ l != "vo ") then
+    ["persisted-object-reference vo"] else [])
+
+/-- layout of a declared program: inherits in order (each with its subtree), then the own variables; static when
+    declared static or reached through a static inherit -/
+partial def declLayout (progs : List (String × List (String × String) × List (String × String))) (name : String)
+    (st : Bool) : List JVar :=
+  match progs.find? (fun p => p.1 == name) with
+  | none => []
+  | some (_, inhs, vars) =>
+    let isSt (m : String) : Bool := m == "s" || m == "sp"
+    (inhs.flatMap (fun i => declLayout progs i.2 (st || isSt i.1))) ++
+      vars.map (fun v => (⟨v.2, st || isSt v.1, .int 0⟩ : JVar))
+
+def hasDupNames (live : List JVar) : Bool :=
+  let ns := live.map (·.name)
+  ns.eraseDups.length != ns.length
 
 def expectedAfterRestore (s : JState) (noclear : Bool) : Option (List JVar) :=
   match s.snap with
   | none => none
   | some (snap, zeros) =>
-    some (s.live.map (fun lv =>
+    if snap.length != s.live.length then none else
+    some ((s.live.zip snap).map (fun (p : JVar × JVar) =>
+      let lv := p.1
+      let sv := p.2
       if lv.isStatic then lv
-      else
-        match snap.find? (fun x => x.name == lv.name) with
-        | some sv =>
-          if zeros || !(isZeroVal (expectOf sv.val)) then { lv with val := sv.val }
-          else if noclear then lv else { lv with val := .int 0 }
-        | none => lv))
+      else if zeros || !(isZeroVal (expectOf sv.val)) then { lv with val := sv.val }
+      else if noclear then lv else { lv with val := .int 0 }))
 
 def judgeCmd (s : JState) (cmd : String) (impl : List String) : JState × List String :=
   match toks cmd with
@@ -430,6 +461,13 @@ def judgeCmd (s : JState) (cmd : String) (impl : List String) : JState × List S
       ({ s with live := [⟨"vi", false, i⟩, ⟨"vis", true, st⟩, ⟨"va", false, a⟩, ⟨"vb", false, b⟩,
                           ⟨"vs", true, st⟩, ⟨"vo", false, .obj⟩, ⟨"vc", false, c⟩] }, impl)
     | _, _, _, _, _ => (s, impl)
+  | "prog" :: name :: items =>
+    let parts := items.map (fun x => x.splitOn ":")
+    let inhs := parts.filterMap (fun t => match t with | ["i", m, n] => some (m, n) | _ => none)
+    let vars := parts.filterMap (fun t => match t with | ["v", m, n] => some (m, n) | _ => none)
+    ({ s with progs := (name, inhs, vars) :: s.progs }, impl)
+  | ["useg", name] =>
+    ({ s with live := declLayout s.progs name false, snap := none }, impl)
   | ["use", o] =>
     let lay := if o == "many" then (List.range 24).map (fun i => (⟨s!"w{i}", i % 4 == 3, .int 0⟩ : JVar)) else layout0
     ({ s with live := lay, snap := none }, impl)
@@ -454,7 +492,7 @@ def judgeCmd (s : JState) (cmd : String) (impl : List String) : JState × List S
       match nextLine r with
       | some (fl, r2) =>
         match toks fl with
-        | ["file", hex] => (s1.flag (fileChecks ((s.live.filter (·.isStatic)).map (·.name)) hex), r2)
+        | ["file", hex] => (if l == "so 1" then s1.flag (fileChecks s.live (z != "0") hex) else s1, r2)
         | _ => (s1, r2)
       | none => (s1, [])
     | none => (s.flag ["trace missing-so"], [])
@@ -503,7 +541,11 @@ def judgeCmd (s : JState) (cmd : String) (impl : List String) : JState × List S
                   acc ++ [s!"static-variable-changed-by-restore {p.1.name}"] else acc) []
               match expectedAfterRestore s (nc != "0"), l with
               | some ex, "ro 1" =>
-                let vs := (ex.zip gotL).foldl (fun (acc : List String) (p : JVar × V) => acc ++ cmpRestored p.1.name p.1.val p.2) []
+                let vs0 := (ex.zip gotL).foldl (fun (acc : List String) (p : JVar × V) => acc ++ cmpRestored p.1.name p.1.val p.2) []
+                -- two variables of one name at different inheritance levels: open finding K6
+                let vs := if hasDupNames s.live ∧ !vs0.isEmpty then
+                    vs0.map (fun v => if v.startsWith "roundtrip-" then "roundtrip-same-name-variables " ++ v else v)
+                  else vs0
                 ((s'.flag stat).flag vs, r2)
               | some _, _ =>
                 let snapVars := match s.snap with | some (sv, _) => sv | none => []
@@ -526,10 +568,10 @@ def judgeCmd (s : JState) (cmd : String) (impl : List String) : JState × List S
         match toks l with
         | [_, k, st, _] =>      -- cp k state tmp=
           if k.startsWith "n=" then acc
-          else if st == "old" ∨ st == "new" ∨ (st == "none" ∧ !s.hasFile) then acc
+          else if st == "old" ∨ st == "new" ∨ st == "both" ∨ (st == "none" ∧ !s.hasFile) then acc
           else acc ++ [s!"atomic-save-file-{st} at-crash-point {k}"]
         | [_, k, ret, st, _] => -- cf k ret= state tmp=
-          if (ret == "ret=1" ∧ st == "new") ∨ (ret != "ret=1" ∧ (st == "old" ∨ (st == "none" ∧ !s.hasFile))) then acc
+          if st == "both" ∨ (ret == "ret=1" ∧ st == "new") ∨ (ret != "ret=1" ∧ (st == "old" ∨ (st == "none" ∧ !s.hasFile))) then acc
           else acc ++ [s!"atomic-save-file-{st} after-failure {k} {ret}"]
         | [_, k, "childcrash"] => acc ++ [s!"memory childcrash {k}"]
         | [_, _] => acc
@@ -540,7 +582,7 @@ def judgeCmd (s : JState) (cmd : String) (impl : List String) : JState × List S
 
 def judge (cmds impl : List String) : List String :=
   let mem := memLines impl
-  let impl' := impl.filter (fun l => !(l.startsWith "sanitizer" ∨ l.startsWith "crash"))
+  let impl' := impl.filter (fun l => !(l.startsWith "sanitizer" ∨ l.startsWith "crash" ∨ l.startsWith "tree "))
   let (s, _) := cmds.foldl (fun (acc : JState × List String) c => judgeCmd acc.1 c acc.2) ({}, impl')
   mem ++ s.bad.reverse
 
